@@ -131,10 +131,18 @@ def gen_query(rng):
         toks.append(Tok("select", "select"))
     grouped = rng.random() < 0.15
     simple_all = True
+    key2 = None
     if grouped:
         key = rng.choice(["ext", "dir", "is_dir", "uid"])
         agg = rng.choice(AGG_GROUPS)[0]
-        toks += [T("col", key, COL_GROUPS), Tok("comma", ",", glue="L"), T("agg", agg, AGG_GROUPS, "R"), Tok("open", "(", glue="LR"),
+        toks += [T("col", key, COL_GROUPS), Tok("comma", ",", glue="L")]
+        if rng.random() < 0.4:
+            # a second grouping key that is a function call or an arithmetic expression (after a comma, with or without WHERE)
+            key2 = rng.choice([[T("fn", "length", FN_GROUPS, "R"), Tok("open", "(", glue="LR"), T("col", "name", COL_GROUPS), Tok("close", ")", glue="L")],
+                               [T("fn", "lower", FN_GROUPS, "R"), Tok("open", "(", glue="LR"), T("col", "ext", COL_GROUPS), Tok("close", ")", glue="L")],
+                               [T("col", "size"), T("arith", "%", ARITH_GROUPS), Tok("num", "2")]])
+            toks += [t.copy() for t in key2] + [Tok("comma", ",", glue="L")]
+        toks += [T("agg", agg, AGG_GROUPS, "R"), Tok("open", "(", glue="LR"),
                  (Tok("lit", "*") if agg == "count" and rng.random() < 0.7 else T("col", "size")), Tok("close", ")", glue="L")]
     else:
         n = rng.randint(1, 3)
@@ -160,6 +168,8 @@ def gen_query(rng):
         toks += gen_cond(rng)
     if grouped:
         toks += [Tok("kw", "group"), Tok("kw", "by"), T("col", key, COL_GROUPS)]
+        if key2:
+            toks += [Tok("comma", ",", glue="L")] + [t.copy() for t in key2]
     if grouped or rng.random() < 0.5:
         toks += [Tok("kw", "order"), Tok("kw", "by")]
         for i in range(1 if grouped else rng.choice([1, 1, 2])):
@@ -167,6 +177,8 @@ def gen_query(rng):
                 toks.append(Tok("comma", ",", glue="L"))
             if grouped:
                 toks.append(T("col", key, COL_GROUPS))
+                if key2:
+                    toks += [Tok("comma", ",", glue="L")] + [t.copy() for t in key2]
             else:
                 toks.append(T("col", rng.choice(["name", "size", "path", "ext", "modified"]), COL_GROUPS) if rng.random() < 0.8 else Tok("num", "1"))
             d = rng.choice(["", "", "desc", "asc"])
